@@ -1,10 +1,11 @@
 """C01 — Returned lines are exactly the scanned lines that satisfy the match part."""
 import interp_common
 
-MODULES = ["Props.C01", "Props.RunTie"]
+MODULES = ["Props.C01", "Props.RunTie", "Props.MatchTie"]
 THEOREMS = ["Props.C01.c01_runloop", "Props.C01.c01_toplevel", "Props.C01.c01_compare_ints", "Props.C01.c01_not", "Props.C01.c01_and",
             "Props.C01.c01_or",
-            "Props.C01.c01_strings_math", "Props.RunTie.consider_line_source_is_model", "Props.RunTie.advance_source"]
+            "Props.C01.c01_strings_math", "Props.RunTie.consider_line_source_is_model", "Props.RunTie.advance_source",
+            "Props.MatchTie.matches_source_is_model", "Props.MatchTie.c01_toplevel_source", "Props.MatchTie.interp_is_instance"]
 
 
 def run(check, tier):
